@@ -73,11 +73,57 @@ Definition acct_ok (s : state unit) (x : acct) : bool :=
 
 Definition clean_unit : (addr -> bool) -> unit -> unit := fun _ u => u.
 
+(** The frame model instrumented with a log: for every SELFDESTRUCT the tree executes (also inside
+    frames that are reverted later), the executing contract, the balance opSuicide moves, and the
+    contract's balance right after StateDB.Suicide -- what the tracer observes at that moment.
+    [case_ok] also requires the state of this instrumented copy to agree with [run_effect]. *)
+Fixpoint run_log (h d : N) (self : addr) (s : state unit) (ef : effect) {struct ef}
+  : state unit * list (N * N * N) :=
+  match ef with
+  | ESelfDestruct ben =>
+      let s' := op_selfdestruct s self ben in (s', [(self, bal s self, bal s' self)])
+  | EFrame k to v ok body =>
+      let run_body (ctx : addr) :=
+        (fix go (l : list effect) (st : state unit) (acc : list (N * N * N)) {struct l} :=
+           match l with
+           | [] => (st, acc)
+           | e :: r => let '(st', lg) := run_log h (d + 1) ctx st e in go r st' (acc ++ lg)
+           end) body in
+      if CALL_CREATE_DEPTH <? d then (s, [])
+      else
+      match k with
+      | KCall =>
+          if (negb (v =? 0)) && negb (can_transfer (bal s self) v) then (s, [])
+          else
+            let s1 := transfer s self to v in
+            let '(s2, lg) := if has_code s1 to then run_body to s1 [] else (s1, []) in
+            (if ok then s2 else s, lg)
+      | KCallCode =>
+          if negb (can_transfer (bal s self) v) then (s, [])
+          else let '(s2, lg) := run_body self s [] in (if ok then s2 else s, lg)
+      | KDelegateCall => let '(s2, lg) := run_body self s [] in (if ok then s2 else s, lg)
+      | KStaticCall => (if ok then add_balance s to 0 else s, [])
+      | KCreate =>
+          if negb (can_transfer (bal s self) v) then (s, [])
+          else
+            let s0 := set_nonce s self (next_nonce (nonce s self)) in
+            if collision s0 to then (s0, [])
+            else
+              let s1 := if is_fork EIP158_BLOCK h then set_nonce s0 to 1 else s0 in
+              let '(s2, lg) := run_body to (transfer s1 self to v) [] in
+              (if ok then set_code s2 to else s0, lg)
+      end
+  end.
+
+Definition sd_eqb (a b : N * N * N) : bool :=
+  let '(a1, a2, a3) := a in let '(b1, b2, b3) := b in (a1 =? b1) && (a2 =? b2) && (a3 =? b3).
+
 Inductive case :=
 | CTx (chain height receiver : N) (pre : list acct) (m : msg) (o : oracle) (r : obs) (post : list acct)
 | CSuicide (pre : list acct) (from to value beneficiary : N) (post : list acct) (suicided : list N)
 | CTree (height : N) (pre : list acct) (sender : N) (create : bool) (target value : N) (ok : bool)
-        (body : list effect) (post : list acct) (suicided : list N).
+        (body : list effect) (post : list acct) (suicided : list N)
+        (sdlog : list (N * N * N)) (* per executed SELFDESTRUCT: contract, balance moved, balance after *).
 
 Definition case_ok (c : case) : bool :=
   match c with
@@ -94,7 +140,7 @@ Definition case_ok (c : case) : bool :=
       let s1 := op_selfdestruct (transfer s0 from to value) to ben in
       forallb (acct_ok s1) post
       && forallb (fun x => Bool.eqb (suicided s1 (a_id x)) (existsb (N.eqb (a_id x)) su)) post
-  | CTree height pre sender create target value ok body post su =>
+  | CTree height pre sender create target value ok body post su sdlog =>
       (* [pre] is the state after buyGas; TransitionDb advances the nonce itself before evm.Call *)
       let s0 := if create then st_of pre
                 else set_nonce (st_of pre) sender (next_nonce (nonce (st_of pre) sender)) in
@@ -102,6 +148,12 @@ Definition case_ok (c : case) : bool :=
       forallb (acct_ok s1) post
       && forallb (fun x => match find_acct post (a_id x) with Some _ => true | None => acct_ok s1 x end) pre
       && forallb (fun x => Bool.eqb (suicided s1 (a_id x)) (existsb (N.eqb (a_id x)) su)) pre
+      (* the instrumented copy: same state, and every SELFDESTRUCT (the second one of a contract
+         included) leaves the balance the implementation showed at that moment *)
+      && (let '(s2, lg) := run_log height 0 sender s0 (EFrame (if create then KCreate else KCall) target value ok body) in
+          forallb (acct_ok s2) post
+          && forallb (fun x => match find_acct post (a_id x) with Some _ => true | None => acct_ok s2 x end) pre
+          && list_eqb sd_eqb lg sdlog)
   end.
 
 Definition mismatches := mism case_ok.
